@@ -50,7 +50,9 @@ func ParseYamlInDir(path string, namespaceName string) (*Namespace, error) {
 				return nil
 			})
 		if err != nil {
-			log.Error().Err(err).Msg("")
+			// A directory that cannot be listed or a file that cannot be examined: the
+			// model files below it are unknown, so there is no package to go on with.
+			return nil, err
 		}
 
 		sort.Slice(paths, func(i, j int) bool { return paths[i] < paths[j] })
